@@ -390,7 +390,7 @@ def run(tier, seed):
     res.add_mc("MC_FrameStream n<=4 cap<=3 b<=3 fail<=n (135 configurations)", r, "8 invariants + Terminates under WF(Producer), WF(Consumer)")
     if r.violation:
         raise TLCError("FrameStream design check failed: %s\n%s" % (r.violation, r.out[-1500:]))
-    r2 = check_model("MC_FrameStream", "CONSTANTS MaxN = 2\n MaxCap = 1\n MaxB = 1\nSPECIFICATION SpecNoFinally\nPROPERTY Terminates\nCHECK_DEADLOCK FALSE\n", timeout=300, expect_violation=("temporal", ""))
+    r2 = check_model("MC_FrameStream", "CONSTANTS MaxN = 2\n MaxCap = 1\n MaxB = 1\nSPECIFICATION SpecNoFinally\nPROPERTY Terminates\nCHECK_DEADLOCK FALSE\n", timeout=900, expect_violation=("temporal", ""))
     res.add_mc("MC_FrameStream counter-model (sentinel not in finally)", r2, "must violate Terminates: shows the fault clause is not vacuous")
     if tier == "thorough":
         r3 = check_model("MC_FrameStream", MC_CFG % (6, 4, 4, "Spec", "PROPERTY Terminates"), timeout=1800)
